@@ -172,6 +172,13 @@ class Inferential(TopologyAware, pg_typing.CustomTyping):
 RAISE_IF_NOT_FOUND = (pg_typing.MISSING_VALUE,)
 
 
+def _copy_nested_dict(value: Any) -> Any:
+  """Copies the nesting of built-in dicts; the leaves are not copied."""
+  if type(value) is dict:  # pylint: disable=unidiomatic-typecheck
+    return {k: _copy_nested_dict(v) for k, v in value.items()}
+  return value
+
+
 class Symbolic(
     TopologyAware,
     utils.Formattable,
@@ -320,9 +327,10 @@ class Symbolic(
     if missing is None:
       missing = self._sym_missing()
       self._set_raw_attr('_sym_missing_values', missing)
-    if flatten:
-      missing = utils.flatten(missing)
-    return missing
+    # NOTE: the caller gets its own dicts, never the memoized ones.
+    if flatten and missing:
+      return utils.flatten(missing)
+    return _copy_nested_dict(missing)
 
   def sym_nondefault(self, flatten: bool = True) -> Dict[Union[int, str], Any]:
     """Returns missing values."""
@@ -330,9 +338,10 @@ class Symbolic(
     if nondefault is None:
       nondefault = self._sym_nondefault()
       self._set_raw_attr('_sym_nondefault_values', nondefault)
-    if flatten:
-      nondefault = utils.flatten(nondefault)
-    return nondefault
+    # NOTE: the caller gets its own dicts, never the memoized ones.
+    if flatten and nondefault:
+      return utils.flatten(nondefault)
+    return _copy_nested_dict(nondefault)
 
   @property
   def sym_field(self) -> Optional[pg_typing.Field]:
